@@ -18,10 +18,30 @@ BIN = os.path.join(HARNESS, "bin")
 ALLOWED_AXIOMS = {"propext", "Classical.choice", "Quot.sound"}
 FORBIDDEN = re.compile(r"\b(sorry|admit|native_decide|bv_decide|implemented_by|unsafe)\b|^\s*axiom\s|maxHeartbeats\s+0")
 
+def alt_modfile():
+    """When the runner is pointed at another checkout (VERIF_REPO), the harness is built with a copy
+    of its go.mod whose replace directive names that checkout."""
+    d = os.path.join(WORK, "altmod")
+    os.makedirs(d, exist_ok=True)
+    mod = open(os.path.join(HARNESS, "go.mod")).read().replace("=> /repo", "=> " + REPO)
+    with open(os.path.join(d, "go.mod"), "w") as f:
+        f.write(mod)
+    try:
+        have = set(open(os.path.join(HARNESS, "go.sum")).read().split("\n"))
+        want = set(open(os.path.join(REPO, "go.sum")).read().split("\n"))
+        with open(os.path.join(d, "go.sum"), "w") as f:
+            f.write("\n".join(sorted(x for x in (have | want) if x)) + "\n")
+    except OSError:
+        pass
+    return os.path.join(d, "go.mod")
+
 def goenv():
     e = dict(os.environ)
     e["GOPROXY"] = "off"
     e["GOFLAGS"] = "-mod=mod"
+    if REPO != "/repo":
+        e["GOFLAGS"] += " -modfile=" + alt_modfile()
+        e["VERIF_REPO"] = REPO
     e["GOTOOLCHAIN"] = "auto"
     e.pop("GOSUMDB", None)
     e.setdefault("HOME", "/root")
